@@ -9,6 +9,7 @@ import (
 	"encoding/json"
 
 	toml "github.com/pelletier/go-toml/v2"
+	openrgb "github.com/realbucksavage/openrgb-go"
 	"fmt"
 	"math"
 	"os"
@@ -237,3 +238,14 @@ func TOMLBytesFail(v interface{}, kind int) []byte {
 	}
 	return b
 }
+
+// LedCapture receives the frames sent to the (stubbed or fake) OpenRGB server.
+type LedCapture struct {
+	N      int
+	Frames [4][]openrgb.Color // the first frames
+	Last   []openrgb.Color    // the most recent frame
+}
+
+// RegisterLED tells the symbolic OpenRGB stubs which controller to report, where to record frames and how to end
+// the LED loop after the first frame (natively a fake TCP server started by the harness does all that).
+func RegisterLED(dev *openrgb.Device, capture *LedCapture, cancel func()) {}
